@@ -146,7 +146,11 @@ class Config:
 
         def convert_to_dict(path, obj):
             if isinstance(obj, SectionProxy):
-                result[path] = {k: substitute_config_dir(v) for k, v in obj.items()}
+                # Values are already interpolated, so escape literal dollar signs to keep them
+                # literal when the dict is read back by Config(config_dict=...).
+                result[path] = {
+                    k: substitute_config_dir(v).replace("$", "$$") for k, v in obj.items()
+                }
                 return
             for key in obj.keys():
                 convert_to_dict(f"{path}.{key}" if path else key, obj[key])
